@@ -222,10 +222,12 @@ def pump (s : State) (c : Call) : State × Out :=
 
 def step (s : State) : Ev → Option (State × Out)
   | .call c =>
+    -- receive / unwrap exist only on a wrapped stream, i.e. after do_handshake succeeded
     if s.pc ≠ .idle then none
     else match c with
-      | .read 0 => some (s, .valueError)
-      | _ => some (pump s c)
+      | .handshake => some (pump s c)
+      | .read 0 => if s.e.phase = .established then some (s, .valueError) else none
+      | _ => if s.e.phase = .established then some (pump s c) else none
   | .write item sizes =>
     if s.e.phase = .established ∧ s.e.sentCN = false ∧ s.bioEof = false then
       some (flush { s with e := s.e.write item sizes, sentPlain := s.sentPlain ++ item }, .ret)
